@@ -911,7 +911,8 @@ def _run(ctx):
                 continue
             body = [s for s in sf.node.body
                     if not (isinstance(s, ast.Expr) and
-                            isinstance(s.value, ast.Constant))]
+                            isinstance(s.value, ast.Constant)) and
+                    not U.is_log_stmt(s)]
             if len(body) == 1 and isinstance(body[0], ast.Pass):
                 r5.ok(ctx.construct(sf, extra='no-op'), 'no-op hook')
                 continue
